@@ -136,7 +136,8 @@ theorem splitOld_eq (m : Mode) (s : Sparse) (i : Nat) (h : s.width < 64) :
 /-- (1) below width 64 the first-written `combine` is the model's, in both modes -/
 theorem combineOld_eq (m : Mode) (s : Sparse) (p : Pos) (h : s.width < 64) :
     Sparse.combineOld m s p = s.combine m p := by
-  unfold Sparse.combineOld Sparse.combine
+  rw [Sparse.combine_of_lt h]
+  unfold Sparse.combineOld
   simp only [shiftAmtOld_lt m _ h, bind_ok]
 
 /-- (2) width 64 (any width ≥ 64), overflow checks on: `split` panics on EVERY index -/
@@ -204,8 +205,10 @@ def splitGuarded (s : Sparse) (index : Nat) : Nat × Nat :=
 
 /-- `let high = if width < 64 { (pos.high - pos.low) << width } else { 0 }; (pos.low, high + low.get(pos.low))` -/
 def combineGuarded (m : Mode) (s : Sparse) (p : Pos) : Outcome (Nat × Nat) := do
-  let d ← subM m p.high p.low
-  let high := if s.width < 64 then (d <<< s.width) % U64 else 0
+  let high ← (if s.width < 64 then do
+      let d ← subM m p.high p.low
+      pure ((d <<< s.width) % U64)
+    else pure 0)
   let l ← s.low.get p.low
   let v ← addM m high l.toNat
   return (p.low, v)
@@ -231,10 +234,7 @@ theorem splitGuarded_eq (s : Sparse) (i : Nat) (h : s.width ≤ 64) (hi : i < 2 
 /-- (3) the guarded `combine` is the model's `combine`: every width up to 64, both modes -/
 theorem combineGuarded_eq (m : Mode) (s : Sparse) (p : Pos) (h : s.width ≤ 64) :
     combineGuarded m s p = s.combine m p := by
-  unfold combineGuarded Sparse.combine
-  by_cases hw : s.width < 64
-  · simp only [if_pos hw]
-  · have hw64 : s.width = 64 := by omega
-    simp only [hw64, shl64_mod, Nat.lt_irrefl, ↓reduceIte]
+  have _ := h
+  rfl
 
 end Sds.SafeApi
